@@ -566,7 +566,7 @@ class Rope:
     # ---- strip family: content dependent.  Known content (Lit / Fill) is stripped for real; at an opaque piece the number of
     # stripped elements is a bounded nondeterministic choice k in 0..STRIP_MAX (the inspected elements go through the peek table),
     # or "the whole piece consists of strip characters" (recorded on the source for the witness builder).
-    STRIP_MAX = 2
+    STRIP_MAX = 1
 
     def _strip_side(self, chars, left):
         dflt = ' \t\n\r\x0b\x0c' if self.kind == 't' else b' \t\n\r\x0b\x0c'
@@ -626,9 +626,20 @@ class Rope:
                 if dvals is not None and not (set(dvals) & set(vals)):
                     break                       # a numeral never starts / ends with a strip character
             if isinstance(base, U32) and not isinstance(p, Frag) and base.fmt in ('>I', '!I'):
-                edge = (base.n // (256 ** 3)) % 256 if left else base.n % 256
-                if not s_or(*[s_eq(edge, v) for v in vals]):     # forks on the value of the edge byte
-                    break
+                k = 0
+                while k < 4:
+                    i = k if left else 3 - k
+                    byte = (base.n // (256 ** (3 - i))) % 256
+                    if s_or(*[s_eq(byte, v) for v in vals]):         # forks on the value of the edge byte
+                        k += 1
+                    else:
+                        break
+                if k == 4:
+                    ps.pop(0 if left else -1)
+                    continue
+                if k:
+                    ps[0 if left else -1] = Frag(base, k, 4) if left else Frag(base, 0, 4 - k)
+                break
             raise Unsupported('strip reaching a %s piece' % type(base).__name__)
         return norm(self.kind, ps)
 
